@@ -1,6 +1,7 @@
 package main
 
 import (
+	"strings"
 	"fmt"
 	"strconv"
 
@@ -347,6 +348,16 @@ func (w *iterWorld) Gen(seed uint64, tier string) *Plan {
 		}
 		nMoves := r.Range(4, 60)
 		for i := 0; i < nMoves; i++ {
+			if p.Cfg.Dom <= 32 && r.P(1, 10) {
+				// a read-only call on the container between two moves (the container "is not modified meanwhile":
+				// Values, String, ToJSON, lookups, walks with other fresh iterators, enumerable functions); the
+				// cursors must stay where they are
+				rop := s.GenRead(r, id)
+				rop.N = "R:" + rop.N
+				p.Ops = append(p.Ops, rop)
+				id++
+				continue
+			}
 			j := r.Intn(nIt)
 			m := models[j]
 			moves := fwdMoves
@@ -437,6 +448,10 @@ func (w *iterWorld) Exec(p *Plan, st *RunStats) *Violation {
 					}
 				}
 			})
+		case strings.HasPrefix(op.N, "R:"):
+			rop := op
+			rop.N = op.N[2:]
+			safely(o, op, func() { o.cur = op; s.DoRead(rop) })
 		default:
 			// a mutation invalidates every iterator (README: unsafe to modify while iterating)
 			its = map[int]*modelCursor{}
